@@ -177,7 +177,7 @@ Definition p_ss_main : list instr := [
   (* 4*) IRst 1;
   (* 5*) IBrDone 20;
   (* 6*) ICnt;
-  (* 7*) IBrVar PIPE 0 5;
+  (* 7*) IPoll PIPE INQ 5;          (* select(): sleeps while the wake-up pipe is empty; may time out *)
   (* DrainAndExecute *)
   (* 8*) IWr PIPE 0;               (* read the pipe empty *)
   (* 9*) ILock IM;
@@ -353,6 +353,95 @@ Definition p_per_thread : list instr := [
   (*15*) IUnlock PM;
   (*16*) IEnd ].
 
+(* ---- scenario "pool": ThreadPool with two workers (common/thread/ThreadPool.cpp).  Thread 0: Init() (starts the
+   two ConsumerThreads with Thread::Start), lim x Execute (lock, push, Signal, unlock), JoinAll() (shutdown,
+   Broadcast, join the workers, last started first).  Threads 1, 2: ConsumerThread::Run on the shared
+   queue 16 / mutex 16 / condition 16 / m_shutdown = variable 16; each worker's Thread::m_mutex/m_condition/m_running
+   are mutex/condition/variable 17 (worker A) and 18 (worker B). *)
+Definition PLM := 16.  Definition PLC := 16.  Definition PQ := 16.  Definition PSHUT := 16.
+Definition TMA := 17.  Definition TCA := 17.  Definition RUNA := 17.
+Definition TMB := 18.  Definition TCB := 18.  Definition RUNB := 18.
+Definition p_pool_owner : list instr := [
+  (* 0*) ILock TMA;
+  (* 1*) IBrVar RUNA 1 6;
+  (* 2*) ICreateI 1;
+  (* 3*) IBrVar RUNA 1 6;
+  (* 4*) IWait TCA TMA;
+  (* 5*) IJmp 3;
+  (* 6*) IUnlock TMA;
+  (* 7*) ILock TMB;
+  (* 8*) IBrVar RUNB 1 13;
+  (* 9*) ICreateI 1;
+  (*10*) IBrVar RUNB 1 13;
+  (*11*) IWait TCB TMB;
+  (*12*) IJmp 10;
+  (*13*) IUnlock TMB;
+  (*14*) IRst 0;
+  (*15*) IBrDone 22;
+  (*16*) ILock PLM;
+  (*17*) IBrVar PSHUT 1 18;
+  (*18*) IPush PQ;
+  (*19*) ISignal PLC;
+  (*20*) IUnlock PLM;
+  (*21*) IJmp 15;
+  (*22*) ILock PLM;
+  (*23*) IWr PSHUT 1;
+  (*24*) IBroadcast PLC;
+  (*25*) IUnlock PLM;
+  (*26*) ILock TMB;
+  (*27*) ILd RUNB;
+  (*28*) IUnlock TMB;
+  (*29*) IBrReg 0 35;
+  (*30*) IRst 1;
+  (*31*) IJoinI 2;
+  (*32*) ILock TMB;
+  (*33*) IWr RUNB 0;
+  (*34*) IUnlock TMB;
+  (*35*) ILock TMA;
+  (*36*) ILd RUNA;
+  (*37*) IUnlock TMA;
+  (*38*) IBrReg 0 44;
+  (*39*) IRst 1;
+  (*40*) IJoinI 1;
+  (*41*) ILock TMA;
+  (*42*) IWr RUNA 0;
+  (*43*) IUnlock TMA;
+  (*44*) IEnd ].
+Definition p_pool_worker_a : list instr := [
+  (* 0*) ILock TMA;
+  (* 1*) IWr RUNA 1;
+  (* 2*) IUnlock TMA;
+  (* 3*) ISignal TCA;
+  (* 4*) ILock PLM;
+  (* 5*) IBrEmpty PQ 11;
+  (* 6*) IPop PQ;
+  (* 7*) IUnlock PLM;
+  (* 8*) IRun;
+  (* 9*) ILock PLM;
+  (*10*) IJmp 5;
+  (*11*) IBrVar PSHUT 1 14;
+  (*12*) IWait PLC PLM;
+  (*13*) IJmp 5;
+  (*14*) IUnlock PLM;
+  (*15*) IEnd ].
+Definition p_pool_worker_b : list instr := [
+  (* 0*) ILock TMB;
+  (* 1*) IWr RUNB 1;
+  (* 2*) IUnlock TMB;
+  (* 3*) ISignal TCB;
+  (* 4*) ILock PLM;
+  (* 5*) IBrEmpty PQ 11;
+  (* 6*) IPop PQ;
+  (* 7*) IUnlock PLM;
+  (* 8*) IRun;
+  (* 9*) ILock PLM;
+  (*10*) IJmp 5;
+  (*11*) IBrVar PSHUT 1 14;
+  (*12*) IWait PLC PLM;
+  (*13*) IJmp 5;
+  (*14*) IUnlock PLM;
+  (*15*) IEnd ].
+
 Definition P : programs := fun id =>
   match id with
   | 0 => p_exec_main | 1 => p_consumer | 2 => p_producer
@@ -361,6 +450,7 @@ Definition P : programs := fun id =>
   | 10 => p_ss_main | 11 => p_ss_producer
   | 12 => p_exec_main_re | 13 => p_consumer_re
   | 14 => p_per_owner | 15 => p_per_thread
+  | 16 => p_pool_owner | 17 => p_pool_worker_a | 18 => p_pool_worker_b
   | _ => []
   end.
 
@@ -461,3 +551,11 @@ Definition init_periodic : state :=
     (fun t => match t with 0 => mk_thread 14 Fresh 0 | 1 => mk_thread 15 NotStarted 0 | _ => dummy end)
     (fun _ => 0)
     (fun _ => 0).
+
+(* n = number of closures handed to ThreadPool::Execute *)
+Definition init_pool (n : nat) : state :=
+  base_state 3
+    (fun t => match t with 0 => mk_thread 16 Fresh 0 | 1 => mk_thread 17 NotStarted 0
+                         | 2 => mk_thread 18 NotStarted 0 | _ => dummy end)
+    (fun _ => 0)
+    (fun k => match k with 0 => n | _ => 0 end).
